@@ -308,6 +308,89 @@ func trunc(b []byte, n int) []byte {
 	return b
 }
 
+// twoPlayers: two RTSP/TCP players of one stream whose interleaved channel mappings differ (A:
+// video 0-1 / audio 2-3, B: video 2-3 / audio 0-1). The published packet objects are shared by
+// both delivery goroutines; each player must receive every packet intact under its own mapping
+// whatever the interleaving (statement-level points in av/format/rtp/packet.go; seed C01-r5-m2:
+// the '$' prefix scratch hoisted into the shared Packet).
+func twoPlayers(npk int) func(x *vrt.Exec) {
+	return func(x *vrt.Exec) {
+		vrt.Quiet(true)
+		media.VerifReset()
+		config.VerifSet(false, false, 5, "")
+		s := media.VerifNewBareStreamSDP("/live/cam", hx.SdpH264AAC)
+		media.Regist(s)
+		a, b := hs.NewTCP("a"), hs.NewTCP("b")
+		codes := a.PlayHandshake("h", "/live/cam")
+		u := "rtsp://h/live/cam"
+		for _, st := range [][3]string{{"DESCRIBE", u, ""}, {"SETUP", u + "/streamid=0", "RTP/AVP/TCP;unicast;interleaved=2-3"}, {"SETUP", u + "/streamid=1", "RTP/AVP/TCP;unicast;interleaved=0-1"}, {"PLAY", u, ""}} {
+			h := map[string]string{}
+			if st[2] != "" {
+				h["Transport"] = st[2]
+			}
+			_, it := b.Do(st[0], st[1], h, "")
+			for _, r := range hs.Responses(it) {
+				codes = append(codes, r.Status)
+			}
+		}
+		if fmt.Sprint(codes) != "[200 200 200 200 200 200 200 200]" {
+			x.Failf("two-players handshake-failed", "answers %v", codes)
+			return
+		}
+		var pk []*rtp.Packet
+		for i := 0; i < npk; i++ {
+			ch := byte(rtp.ChannelVideo)
+			if i%2 == 1 {
+				ch = rtp.ChannelAudio
+			}
+			pk = append(pk, hx.Pkt(ch, 96, true, uint16(i), uint32(3000*i), rtppack.H264Single(hx.NAL(2, 1, 20+300*i, byte(i)))))
+		}
+		beforeA, beforeB := len(a.Items), len(b.Items)
+		vrt.Quiet(false)
+		vrt.GoNamed("publisher", func() {
+			for _, p := range pk {
+				s.WriteRtpPacket(p)
+			}
+		})
+		vrt.WhenIdle()
+		vrt.Quiet(true)
+		sentinel := hx.Pkt(rtp.ChannelVideo, 96, true, 999, 999000, rtppack.H264Single(hx.NAL(2, 1, 7, 99)))
+		pk = append(pk, sentinel)
+		s.WriteRtpPacket(sentinel)
+		vrt.WhenIdle()
+		a.Drain()
+		b.Drain()
+		judge := func(name string, c *hs.Client, before int, mapping map[int]int) {
+			if c.ParseErr != nil || len(c.Rest) != 0 {
+				x.Failf("two-players stream-torn", "player %s: %v, %d trailing bytes", name, c.ParseErr, len(c.Rest))
+				return
+			}
+			fr := hs.Frames(c.Items[before:])
+			if len(fr) != len(pk) {
+				x.Failf("two-players frame-count", "player %s received %d frames for %d packets", name, len(fr), len(pk))
+				return
+			}
+			for i, f := range fr {
+				want := mapping[int(pk[i].Channel)]
+				if f.Channel != want || !bytes.Equal(f.Payload, pk[i].Data) {
+					x.Failf("two-players frame-differs", "player %s frame %d: interleaved channel %d len %d; the packet was published on %s and this player mapped it to channel %d (len %d)", name, i, f.Channel, len(f.Payload), rtp.ChannelName(int(pk[i].Channel)), want, len(pk[i].Data))
+					return
+				}
+			}
+		}
+		judge("A", a, beforeA, map[int]int{rtp.ChannelVideo: 0, rtp.ChannelAudio: 2})
+		judge("B", b, beforeB, map[int]int{rtp.ChannelVideo: 2, rtp.ChannelAudio: 0})
+		x.Observe("A=%d B=%d", len(a.Items)-beforeA, len(b.Items)-beforeB)
+		s.Close()
+		a.Conn.Close()
+		b.Conn.Close()
+		vrt.WhenIdle()
+		for _, bl := range vrt.Blocked() {
+			x.Failf("stuck-goroutine "+bl.Name, "%s", bl.Frames)
+		}
+	}
+}
+
 func scenarios(thorough bool) []runner.Scenario {
 	p, e, sh := 2, 1, 4
 	if thorough {
@@ -322,6 +405,7 @@ func scenarios(thorough bool) []runner.Scenario {
 		{Name: "wsp-2pkts-OPTIONS-PLAY", Body: wspScenario(2, []string{"OPTIONS", "PLAY"}, "both"), P: p, Shards: sh},
 		// a player that set up one track only: packets of the other track must produce no message at all
 		{Name: "ws-rtsp-audio-only-3pkts-OPTIONS", Body: wsScenario(3, []string{"OPTIONS"}, "audio-only"), P: p, Shards: sh},
+		{Name: "tcp-two-players-different-channel-maps", Body: twoPlayers(2), P: p, Shards: sh},
 		{Name: "wsp-video-only-3pkts-OPTIONS", Body: wspScenario(3, []string{"OPTIONS"}, "video-only"), P: p, Shards: sh},
 	}
 }
